@@ -84,7 +84,9 @@ MANIFEST_META = {
              'is encoded.',
         note='the universal claim "returns a complete response without raising for any request whatsoever" (whole-program '
              'exception freedom across dynamic dispatch, templates, PIL decoders), image decodability, XML well-formedness of '
-             'rendered templates are NOT covered'),
+             'rendered templates are NOT covered; repaired through this check: S15/S24 (in-image error Content-type), S29 (control characters '
+             'in XML error documents; xml_text is bounded), plus contracts for DemoServer templates (taint propagation) and Request.host '
+             '(total for every Host header)'),
     'C09': dict(
         text='Proof that the paths built from numbers stay below their root: compact bundle file = cache_dir/L<z>/R<r>C<c> (two '
              'safe segments, string lemma), lock file = lock_dir/<cache id>-x-y-z.lck (one segment; injective for non-negative '
@@ -116,7 +118,8 @@ MANIFEST_META = {
              'contract - defects S1, S2 found there and repaired; single operations: _store_bulk builds one record (level, column, row, '
              'bytes of that tile) per tile and inserts them with a column list in that order, load_tile / remove_tile are parameterised with '
              'tile.coord in the order of their WHERE columns (literal SQL text is inspected, its execution by sqlite is assumed); '
-             'redis/s3/azure/couchdb are outside'),
+             'redis/s3/azure/couchdb are outside; defects found and repaired: S1, S2, S17 (bulk load across levels), S18 (quadkey/arcgis '
+             'layouts ignored dimensions; the arcgis formula contract had encoded that and was corrected from the property text)'),
     'C06': dict(
         text='Proof of crash conditions in the file model: after EVERY write inside compact v2 _store_tile (including a torn '
              'payload write of any length) every slot is either unchanged (entry, record bytes, size field, in-file) or - the '
@@ -150,7 +153,8 @@ MANIFEST_META = {
              'where the tiles are).',
         note='defect S4 (tms level directory) was found by this obligation and repaired in /repo 73f95f4; SQL deletes of the '
              'sqlite backends, real file-system time stamps and shutil.rmtree are outside; strategy choice in cleanup() is under '
-             'contract (coverage-blind strategies only for complete extents and only with a cache offering the operation); the dimension sub-path is assumed free of leading/trailing "/" (bounded check of '
+             'contract (coverage-blind strategies only for complete extents and only with a cache offering the operation); known finding S31 '
+             '(quadkey layout: level function raises); MBTiles level removal and the time base of last_modified are under contract; the dimension sub-path is assumed free of leading/trailing "/" (bounded check of '
              'dimensions_part)'),
     'C11': dict(
         text='Proof on the real seeder code: SeedProgress.can_skip is exactly "current is behind old" for progress paths of '
@@ -197,7 +201,8 @@ MANIFEST_META = {
              'only with its map (featureinfo) permission and inside its limits.',
         note='pixel clipping (image.mask, shapely, PIL) and the reprojection arithmetic of the limiting geometry are outside; '
              'opaque-callee assumption; the callback result is an opaque mapping; the capabilities TEMPLATES (what is printed for '
-             'an advertised layer) and FilteredRootLayer.extent are outside'),
+             'an advertised layer) and FilteredRootLayer.extent are outside; known finding S27 (tile services drop the request-wide limit when '
+             'the layer has its own); GetLegendGraphic is never authorized and clip masks are pixel-level (observations)'),
     'C14': dict(
         text='Proof that the shortcut guards imply "shortcut = full composition" at the level of operation selection: the '
              'single-layer fast path of LayerMerger.merge is taken only for one layer of the requested size without clip, '
@@ -212,7 +217,8 @@ MANIFEST_META = {
              'the order; LayerRenderer adds every successful layer once, in order, with its own opacity and coverage; WMSServer.map '
              'prunes only below an opaque layer that renders the query.',
         note='pixel arithmetic (PIL alpha_composite/blend/paste) is an algebra of opaque symbols: the proof is about WHICH operation is '
-             'applied to WHICH operands in WHICH order, not about pixel values; defects S6 (opacity 0 counted opaque) and S7 (single '
+             'applied to WHICH operands in WHICH order, not about pixel values; mask_polygons (BBOXCoverage, S16), WMSGroupLayer.is_opaque (S33) '
+             'and the parameter equality of combined requests (S34) are under contract and were repaired; defects S6 (opacity 0 counted opaque) and S7 (single '
              'layer ignores opacity) were found by this check and repaired in /repo (089f0af, 82bd189)'),
     'C17': dict(
         text='Proof of call-site preconditions on the real WMSSource code (all paths, all inputs): at every '
@@ -230,7 +236,9 @@ MANIFEST_META = {
              'concurrency limit) and accepts the answer only as image/*; WMSInfoClient asks in a supported SRS (else with the transformed '
              'query) and sends bbox/size/pixel/SRS code of that query.',
         note='SRS equality is treated as identity of opaque objects; URL assembly, reprojected bbox accuracy, '
-             'best_srs/preferred_src and the URL text (complete_url) are not under contract; opaque-callee '
+             'the URL text (complete_url) is not under contract; PreferredSrcSRS.preferred_src returns an entry of the configured list (S30 '
+             'repaired), sources are combined only inside both resolution ranges (S25), a clipped bbox is sent only as a proper rectangle '
+             '(S26); WMSInfoClient still forwards the client\'s SRS code when it merely compares equal (pinned by tests); opaque-callee '
              'assumption'),
     'C20': dict(
         text='Proof on the real code: Response.make_conditional answers 304 (no body, no Content-type) when If-None-Match '
@@ -242,7 +250,8 @@ MANIFEST_META = {
              'file-cache metadata comes from lstat; tile answers are built from the rendered tile and made conditional on the headers '
              'of that request; WMS-C (tiled=true) answers get validators and a conditional answer exactly when the image carries the '
              'CacheInfo of a cached tile, uncacheable WMS answers get no-cache headers; error documents are never cacheable.',
-        note='md5 and date formatting/parsing are uninterpreted functions; headers are a str->str map; tile_buffer is not under contract; defect S8 (WMTS/KML ignored tile.cacheable) was found by this check '
+        note='md5 and date formatting/parsing are uninterpreted functions; headers are a str->str map; tile_buffer is not under contract; defects S20 (meta-tile path dropped the cache info), S21 (stale '
+             'metadata kept), S22 (WMS-C uncacheable) found by the defect hunt, put under contract and repaired; defect S8 (WMTS/KML ignored tile.cacheable) was found by this check '
              'and repaired in /repo commit 4acc6c2'),
     'C02': dict(
         text='Proof on the real code of the address arithmetic between the advertised description objects and the served '
@@ -266,7 +275,9 @@ MANIFEST_META = {
              'out-of-grid address (_create_tile_list, _meta_tile_list); WMS request validation: an accepted request has a bbox with positive '
              'extent, a configured format and SRS, only configured layers; WMTS: parsed first, configured layer and a tile matrix set of it.',
         note='opaque-callee assumption for the trace conditions; HTTP status/body rendering, WMS-C and the request '
-             'parsers\' regular expressions are outside (levels reach the services as int(...) of \\d+ groups)'),
+             'parsers\' regular expressions are outside (levels reach the services as int(...) of \\d+ groups); also under contract: '
+             'TileLayer.checked_dimensions, WMTSServer.featureinfo (address validated like GetTile: S28 repaired), non-positive WIDTH/HEIGHT '
+             'refused (S23 repaired); max_tile_limit is evaluated per layer while rendering (observation, not decided here)'),
     'C04': dict(
         text='Proof of the meta-tile geometry on the real MetaGrid code for all grids / meta sizes / buffers / tiles: '
              'meta size never exceeds the level grid, main tile arithmetic (idempotence lemma), tile lists row by row '
@@ -296,7 +307,9 @@ MANIFEST_META = {
              'file, else now minus the given units (each from its own key, 0 if absent); seed_task hands the refresh timestamp of the task '
              'to its tile manager.',
         note='wall-clock functions (mktime, time zones), sqlite timestamp resolution and the seed-task path are outside; '
-             'timestamps assumed non-negative; known finding S10 (sub-second window)'),
+             'timestamps assumed non-negative; known finding S10 (sub-second window); S32 (seed threshold overridden by the cache rule) and '
+             'S21 (stale metadata kept on the tile) repaired; DST shift of relative thresholds and hard-linked single-colour tiles are '
+             'observations outside the contracts'),
     'C03': dict(
         text='Proof (all grids, all levels, all coordinates, no bound) that the real grid.py functions meet contracts '
              'taken from the property text: tile() contains its point, tile_bbox edges are the exact affine edges '
